@@ -2,10 +2,12 @@ package main
 
 import (
 	"fmt"
+	"hash/fnv"
 	"math/big"
 	"sort"
 	"strings"
 	"unicode"
+	"unicode/utf8"
 
 	"github.com/hashicorp/hcl/v2"
 	"github.com/hashicorp/hcl/v2/hclsyntax"
@@ -22,6 +24,22 @@ type failure struct {
 	detail string
 }
 
+// showV renders a value for messages and signatures; a long rendering is cut
+// to its beginning plus its length and a hash.
+func showV(v cty.Value) string {
+	s := vfmt.V(v)
+	if len(s) <= 400 {
+		return s
+	}
+	h := fnv.New32a()
+	h.Write([]byte(s))
+	cut := 200
+	for cut > 0 && !utf8.RuneStart(s[cut]) {
+		cut--
+	}
+	return fmt.Sprintf("%s...(%d bytes, %08x)", s[:cut], len(s), h.Sum32())
+}
+
 func clip(b []byte) string {
 	if len(b) > 300 {
 		return fmt.Sprintf("%q...(%d bytes)", b[:300], len(b))
@@ -36,14 +54,14 @@ func clip(b []byte) string {
 func readBack(v cty.Value, unspecNum bool, expr hcl.Expression, src []byte) (got cty.Value, f *failure, unspec bool) {
 	got, diags := expr.Value(nil)
 	if diags.HasErrors() {
-		return got, &failure{"eval-error", fmt.Sprintf("generated source %s for %s evaluates with errors: %s", clip(src), vfmt.V(v), diags.Error())}, false
+		return got, &failure{"eval-error", fmt.Sprintf("generated source %s for %s evaluates with errors: %s", clip(src), showV(v), diags.Error())}, false
 	}
 	if got.IsMarked() || !got.IsWhollyKnown() {
-		return got, &failure{"value-mismatch", fmt.Sprintf("generated source %s for %s evaluates to %s (marked or unknown)", clip(src), vfmt.V(v), vfmt.V(got))}, false
+		return got, &failure{"value-mismatch", fmt.Sprintf("generated source %s for %s evaluates to %s (marked or unknown)", clip(src), showV(v), showV(got))}, false
 	}
 	conv, err := convert.Convert(got, v.Type())
 	if err != nil {
-		return got, &failure{"convert-error", fmt.Sprintf("generated source %s for %s evaluates to %s, which does not convert to %s: %s", clip(src), vfmt.V(v), vfmt.V(got), v.Type().FriendlyName(), err)}, false
+		return got, &failure{"convert-error", fmt.Sprintf("generated source %s for %s evaluates to %s, which does not convert to %s: %s", clip(src), showV(v), showV(got), v.Type().FriendlyName(), err)}, false
 	}
 	if conv.RawEquals(v) {
 		return conv, nil, false
@@ -56,7 +74,7 @@ func readBack(v cty.Value, unspecNum bool, expr hcl.Expression, src []byte) (got
 		// spec.md allows limited precision (>= 256 bits).
 		return conv, nil, true
 	}
-	return conv, &failure{"value-mismatch", fmt.Sprintf("generated source %s for %s reads back as %s", clip(src), vfmt.V(v), vfmt.V(conv))}, false
+	return conv, &failure{"value-mismatch", fmt.Sprintf("generated source %s for %s reads back as %s", clip(src), showV(v), showV(conv))}, false
 }
 
 // equalAtPrecision is RawEquals except for numbers carried at fewer bits than
@@ -116,11 +134,11 @@ func checkTokens(v cty.Value, unspecNum bool) (sig string, f *failure, unspec bo
 	// generating again (and generating something else in between) must not change what was returned
 	_ = hclwrite.TokensForValue(cty.StringVal("zz${"))
 	if again := hclwrite.TokensForValue(v).Bytes(); string(again) != string(src) || string(toks.Bytes()) != string(src) {
-		return "", &failure{"regenerate-differs", fmt.Sprintf("TokensForValue(%s) gives %s the first time and %s the second time (first result now %s)", vfmt.V(v), clip(src), clip(again), clip(toks.Bytes()))}, false
+		return "", &failure{"regenerate-differs", fmt.Sprintf("TokensForValue(%s) gives %s the first time and %s the second time (first result now %s)", showV(v), clip(src), clip(again), clip(toks.Bytes()))}, false
 	}
 	expr, diags := hclsyntax.ParseExpression(src, "gen.hcl", hcl.InitialPos)
 	if diags.HasErrors() {
-		return "", &failure{"parse-error", fmt.Sprintf("TokensForValue(%s) = %s does not parse as an expression: %s", vfmt.V(v), clip(src), diags.Error())}, false
+		return "", &failure{"parse-error", fmt.Sprintf("TokensForValue(%s) = %s does not parse as an expression: %s", showV(v), clip(src), diags.Error())}, false
 	}
 	got, f, unspec := readBack(v, unspecNum, expr, src)
 	if f != nil || unspec {
@@ -131,32 +149,38 @@ func checkTokens(v cty.Value, unspecNum bool) (sig string, f *failure, unspec bo
 			counters.Add("heredoc_generated", 1)
 		}
 	}
-	return vfmt.V(got), nil, false
+	return showV(got), nil, false
 }
 
 // checkAttr: the same value written through Body.SetAttributeValue (new
 // attribute, replaced attribute, attribute followed by another one, attribute
 // inside a nested block) and read back from File.Bytes() with
 // hclsyntax.ParseConfig.
-func checkAttr(v cty.Value, unspecNum bool) (f *failure, unspec bool) {
+//
+// xName is the name of the attribute called x here ("x" itself unless the case
+// is about the attribute name: the size dimension of identifier tokens).
+func checkAttr(v cty.Value, unspecNum bool, xName string) (f *failure, unspec bool) {
+	if xName == "" {
+		xName = "x"
+	}
 	file := hclwrite.NewEmptyFile()
 	body := file.Body()
-	body.SetAttributeValue("x", cty.True)
-	body.SetAttributeValue("x", v) // replace
-	body.SetAttributeValue("y", v) // append
+	body.SetAttributeValue(xName, cty.True)
+	body.SetAttributeValue(xName, v) // replace
+	body.SetAttributeValue("y", v)   // append
 	body.SetAttributeValue("z", cty.False)
 	blk := body.AppendNewBlock("blk", nil)
-	blk.Body().SetAttributeValue("x", v)
+	blk.Body().SetAttributeValue(xName, v)
 	blk.Body().SetAttributeValue("z", cty.False)
 	src := file.Bytes()
 
 	parsed, diags := hclsyntax.ParseConfig(src, "gen.hcl", hcl.InitialPos)
 	if diags.HasErrors() {
-		return &failure{"attr-parse-error", fmt.Sprintf("file written with SetAttributeValue(%s) = %s does not parse: %s", vfmt.V(v), clip(src), diags.Error())}, false
+		return &failure{"attr-parse-error", fmt.Sprintf("file written with SetAttributeValue(%s) = %s does not parse: %s", showV(v), clip(src), diags.Error())}, false
 	}
 	root, ok := parsed.Body.(*hclsyntax.Body)
 	if !ok || len(root.Attributes) != 3 || len(root.Blocks) != 1 || root.Blocks[0].Type != "blk" || len(root.Blocks[0].Labels) != 0 || len(root.Blocks[0].Body.Attributes) != 2 || len(root.Blocks[0].Body.Blocks) != 0 {
-		return &failure{"attr-structure", fmt.Sprintf("file written with SetAttributeValue(%s) = %s does not have the structure that was written (3 attributes, 1 block with 2 attributes)", vfmt.V(v), clip(src))}, false
+		return &failure{"attr-structure", fmt.Sprintf("file written with SetAttributeValue(%s) = %s does not have the structure that was written (3 attributes, 1 block with 2 attributes)", showV(v), clip(src))}, false
 	}
 	type slot struct {
 		name string
@@ -165,12 +189,12 @@ func checkAttr(v cty.Value, unspecNum bool) (f *failure, unspec bool) {
 		un   bool
 	}
 	for _, s := range []slot{
-		{"x", root, v, unspecNum}, {"y", root, v, unspecNum}, {"z", root, cty.False, false},
-		{"x", root.Blocks[0].Body, v, unspecNum}, {"z", root.Blocks[0].Body, cty.False, false},
+		{xName, root, v, unspecNum}, {"y", root, v, unspecNum}, {"z", root, cty.False, false},
+		{xName, root.Blocks[0].Body, v, unspecNum}, {"z", root.Blocks[0].Body, cty.False, false},
 	} {
 		attr := s.body.Attributes[s.name]
 		if attr == nil {
-			return &failure{"attr-structure", fmt.Sprintf("file written with SetAttributeValue(%s) = %s lacks attribute %q", vfmt.V(v), clip(src), s.name)}, false
+			return &failure{"attr-structure", fmt.Sprintf("file written with SetAttributeValue(%s) = %s lacks attribute %s", showV(v), clip(src), abbrev(s.name))}, false
 		}
 		_, f, u := readBack(s.want, s.un, attr.Expr, src)
 		if f != nil {
@@ -309,11 +333,230 @@ func firstKey(v cty.Value) (string, bool) {
 	return "", false
 }
 
+// ---- size of a failing construct ---------------------------------------
+
+// overPow2 names the power-of-two bucket of a size: the largest 2^k < n.
+func overPow2(n int) int {
+	p := 1
+	for p*2 < n {
+		p *= 2
+	}
+	return p
+}
+
+// maxTokenLen is the length in bytes of the longest single token the
+// generator emits for v (0 if it cannot be generated).
+func maxTokenLen(v cty.Value) (m int) {
+	defer func() {
+		if r := recover(); r != nil {
+			m = 0
+		}
+	}()
+	for _, t := range hclwrite.TokensForValue(v) {
+		if len(t.Bytes) > m {
+			m = len(t.Bytes)
+		}
+	}
+	return m
+}
+
+// tokenSizeSuffix is the part of a class name that says the smallest failing
+// construct is one long token: ".token-over-<2^k>-bytes" when that token is
+// longer than 32 bytes (so the classes of everything short stay as they are).
+func tokenSizeSuffix(n int) string {
+	if n <= 32 {
+		return ""
+	}
+	return fmt.Sprintf(".token-over-%d-bytes", overPow2(n))
+}
+
+func stringSizeSuffix(s string) string {
+	n := maxTokenLen(cty.StringVal(s))
+	if n < len(s) {
+		n = len(s)
+	}
+	return tokenSizeSuffix(n)
+}
+
+// nestingDepth: 0 for a primitive or null, 1 + the deepest member otherwise.
+func nestingDepth(v cty.Value) int {
+	ty := v.Type()
+	if v.IsNull() || !v.IsKnown() || ty.IsPrimitiveType() || ty == cty.DynamicPseudoType {
+		return 0
+	}
+	d := 0
+	for it := v.ElementIterator(); it.Next(); {
+		_, ev := it.Element()
+		if e := nestingDepth(ev); e > d {
+			d = e
+		}
+	}
+	return d + 1
+}
+
+// depthSuffix is the part of a class name that says the smallest failing
+// construct is a deeply nested one: ".nesting-depth-over-<2^k>" from depth 5.
+func depthSuffix(v cty.Value) string {
+	d := nestingDepth(v)
+	if d <= 4 {
+		return ""
+	}
+	return fmt.Sprintf(".nesting-depth-over-%d", overPow2(d))
+}
+
+// smallestFailingSize returns the smallest size of the size dimension below
+// cur (and above 4) at which fails() holds, or cur when there is none.
+func smallestFailingSize(cur int, fails func(n int) bool) int {
+	for _, n := range sizeLens(20) {
+		if n >= cur {
+			break
+		}
+		if n > 4 && fails(n) {
+			return n
+		}
+	}
+	return cur
+}
+
+// smallestFailingIdent: the shortest prefix of a long identifier (at the
+// lengths of the size dimension) for which fails() holds, else the name.
+func smallestFailingIdent(name string, fails func(sub string) bool) string {
+	rs := []rune(name)
+	if len(name) <= 32 {
+		return name
+	}
+	n := smallestFailingSize(len(rs), func(n int) bool {
+		sub := string(rs[:n])
+		return hclsyntax.ValidIdentifier(sub) && fails(sub)
+	})
+	return string(rs[:n])
+}
+
+// sameFormNumber: the power of ten of the same sign and direction as v whose
+// source text is n bytes long (see lookupNumber).
+func sameFormNumber(v cty.Value, n int) (cty.Value, bool) {
+	f := v.AsBigFloat()
+	var name string
+	switch {
+	case !f.IsInt():
+		if n < 3 {
+			return cty.NilVal, false
+		}
+		name = fmt.Sprintf("1e-%d", n-2)
+	case f.Signbit():
+		name = fmt.Sprintf("-1e%d", n-2)
+	default:
+		name = fmt.Sprintf("1e%d", n-1)
+	}
+	ns, ok := lookupNumber(name)
+	if !ok {
+		return cty.NilVal, false
+	}
+	return ns.mk(), true
+}
+
+// numberSizeSuffix: for a number whose token is long, the size bucket of the
+// shortest number of the same form that fails too.
+func numberSizeSuffix(v cty.Value, fails func(cty.Value) bool) string {
+	m := maxTokenLen(v)
+	if m <= 32 {
+		return ""
+	}
+	n := smallestFailingSize(m, func(n int) bool {
+		w, ok := sameFormNumber(v, n)
+		return ok && fails(w)
+	})
+	if w, ok := sameFormNumber(v, n); ok && n < m {
+		return tokenSizeSuffix(maxTokenLen(w))
+	}
+	return tokenSizeSuffix(maxTokenLen(v))
+}
+
+// smallestFailingSub returns the smallest part of s for which fails() holds,
+// or s itself (ok=false) when no proper part fails: every substring, shortest
+// first, for a string of at most 8 runes; for a longer string every distinct
+// substring of at most 4 runes (the look-ahead of the escaper is 3 runes) and
+// then the prefixes at the lengths of the size dimension, shortest first.
+func smallestFailingSub(s string, fails func(sub string) bool) (string, bool) {
+	rs := []rune(s)
+	seen := map[string]bool{}
+	maxL := len(rs) - 1
+	if len(rs) > 8 {
+		maxL = 4
+	}
+	for l := 1; l <= maxL; l++ {
+		for i := 0; i+l <= len(rs); i++ {
+			sub := string(rs[i : i+l])
+			if seen[sub] {
+				continue
+			}
+			seen[sub] = true
+			if fails(sub) {
+				return sub, true
+			}
+		}
+	}
+	if len(rs) > 8 {
+		for _, n := range sizeLens(20) {
+			if n >= len(rs) {
+				break
+			}
+			if n <= 4 {
+				continue
+			}
+			if sub := string(rs[:n]); fails(sub) {
+				return sub, true
+			}
+		}
+	}
+	return s, false
+}
+
+// longKeySuffix: when a map/object fails although every key and value passes
+// on its own and its longest key is a long token, the size bucket of the
+// shortest prefix of that key with which the value still fails.
+func longKeySuffix(chk checker, v cty.Value) string {
+	long := ""
+	for it := v.ElementIterator(); it.Next(); {
+		k, _ := it.Element()
+		if ks := k.AsString(); len(ks) > len(long) {
+			long = ks
+		}
+	}
+	if len(long) <= 32 {
+		return ""
+	}
+	rebuild := func(newKey string) (cty.Value, bool) {
+		m := map[string]cty.Value{}
+		for it := v.ElementIterator(); it.Next(); {
+			k, ev := it.Element()
+			ks := k.AsString()
+			if ks == long {
+				ks = newKey
+			}
+			if _, dup := m[ks]; dup {
+				return cty.NilVal, false
+			}
+			m[ks] = ev
+		}
+		if v.Type().IsMapType() {
+			return cty.MapVal(m), true
+		}
+		return cty.ObjectVal(m), true
+	}
+	rs := []rune(long)
+	n := smallestFailingSize(len(rs), func(n int) bool {
+		w, ok := rebuild(string(rs[:n]))
+		return ok && tryCheck(chk, w) != nil
+	})
+	return ".long-key" + stringSizeSuffix(string(rs[:n]))
+}
+
 // checker is one of the two value paths reduced to "which clause failed".
 type checker func(v cty.Value) *failure
 
 func tokensChecker(v cty.Value) *failure { _, f, _ := checkTokens(v, false); return f }
-func attrChecker(v cty.Value) *failure   { f, _ := checkAttr(v, false); return f }
+func attrChecker(v cty.Value) *failure   { f, _ := checkAttr(v, false, ""); return f }
 
 func tryCheck(chk checker, v cty.Value) (f *failure) {
 	defer func() {
@@ -334,18 +577,17 @@ func classify(chk checker, v cty.Value, f *failure) string {
 	case v.IsNull():
 		return f.clause + ".null-" + tyShort(ty)
 	case ty == cty.String:
-		rs := []rune(v.AsString())
-		for l := 1; l < len(rs); l++ {
-			for i := 0; i+l <= len(rs); i++ {
-				sub := string(rs[i : i+l])
-				if f2 := tryCheck(chk, cty.StringVal(sub)); f2 != nil {
-					return f2.clause + ".string." + stringFeatures(sub)
-				}
+		clause := f.clause
+		sub, _ := smallestFailingSub(v.AsString(), func(sub string) bool {
+			f2 := tryCheck(chk, cty.StringVal(sub))
+			if f2 != nil {
+				clause = f2.clause
 			}
-		}
-		return f.clause + ".string." + stringFeatures(v.AsString())
+			return f2 != nil
+		})
+		return clause + ".string." + stringFeatures(sub) + stringSizeSuffix(sub)
 	case ty == cty.Number:
-		return f.clause + ".number." + numberShape(v)
+		return f.clause + ".number." + numberShape(v) + numberSizeSuffix(v, func(w cty.Value) bool { return tryCheck(chk, w) != nil })
 	case ty == cty.Bool:
 		return f.clause + ".bool"
 	}
@@ -384,8 +626,20 @@ func classify(chk checker, v cty.Value, f *failure) string {
 	if v.LengthInt() == 0 {
 		return f.clause + "." + kind + ".empty"
 	}
+	// (every member passes on its own: if the value is deeply nested, that is
+	// part of what makes it the smallest failing construct)
+	deep := depthSuffix(v)
+	if isObj {
+		deep += longKeySuffix(chk, v)
+	}
+	if deep == "" {
+		// ... or that one of its members is a long token
+		if m := maxTokenLen(v); m > 32 {
+			deep = ".long-member" + tokenSizeSuffix(m)
+		}
+	}
 	if !isObj {
-		return f.clause + "." + kind
+		return f.clause + "." + kind + deep
 	}
 	// a single entry that fails alone
 	if v.LengthInt() > 1 {
@@ -404,7 +658,7 @@ func classify(chk checker, v cty.Value, f *failure) string {
 	}
 	fk, _ := firstKey(v)
 	if v.LengthInt() == 1 || fk == "for" {
-		return f.clause + "." + kind + ".first-" + keyClass(fk)
+		return f.clause + "." + kind + ".first-" + keyClass(fk) + deep
 	}
-	return f.clause + "." + kind + ".multi-key.first-" + keyClass(fk)
+	return f.clause + "." + kind + ".multi-key.first-" + keyClass(fk) + deep
 }
